@@ -465,8 +465,10 @@ async fn run_close(case: &Value) -> Value {
     match point.as_str() {
         "before-hello" => {}
         "inside-hello" => {
-            script_ok &= conn.send_unit(&hello[..hello.len() / 2]).await.is_ok();
-            script_ok &= consumed(tr, hello.len() / 2, 1, Duration::from_secs(2)).await;
+            let part = case["fraction"].as_u64().unwrap_or(2) as usize;
+            let cut = (hello.len() * part / 4).clamp(1, hello.len() - 1);
+            script_ok &= conn.send_unit(&hello[..cut]).await.is_ok();
+            script_ok &= consumed(tr, cut, 1, Duration::from_secs(2)).await;
         }
         "hello-without-delimiter" => {
             // the complete <hello>...</hello>, but the stream ends where the delimiter should begin
@@ -510,7 +512,9 @@ async fn run_close(case: &Value) -> Value {
             }
         }
     }
-    tokio::time::sleep(Duration::from_millis(20)).await;
+    // how long the peer lingers between its last action and the close: the client may still be
+    // busy with what it received, be parked already, or have been idle for a while
+    tokio::time::sleep(Duration::from_millis(case["delay_ms"].as_u64().unwrap_or(20))).await;
     conn.close(manner).await;
     tracing::info!(target: "vh::peer", "peer-closed");
     let closed_at = Instant::now();
@@ -994,8 +998,8 @@ pub fn run_c07(cfg: &Cfg) -> i32 {
     let mut rep = Report::new(
         "C07",
         cfg,
-        "one evaluation = one real session over loopback TLS / SSH / a child process whose peer closes at a scripted point (before / inside the hello, idle after the hello, inside a reply, between request and reply, after the reply) in a scripted manner (clean, SSH channel close, abrupt = RST, fin-only = TCP FIN without TLS close_notify / SSH goodbye) with 0, 1 or 3 requests outstanding; \
-         distinct = distinct (transport, point, manner, outstanding, fraction); all are non-trivial",
+        "one evaluation = one real session over loopback TLS / SSH / a child process whose peer closes at a scripted point (before / inside the hello, idle after the hello, inside a reply, between request and reply, after the reply) in a scripted manner (clean, SSH channel close, abrupt = RST, fin-only = TCP FIN without TLS close_notify / SSH goodbye) with 0, 1, 3 or 8 requests outstanding, the peer lingering 0 / 20 / 150 ms before the close; \
+         distinct = distinct (transport, point, manner, outstanding, fraction, linger); all are non-trivial",
     );
     rep.assumptions.push("spin = >= 1000 zero-length reads in the client's trace after the close, or >= 80 % CPU over the wait; hang = no completion within the watchdog with an idle CPU, confirmed by repeating the case twice (3/3), else inconclusive".into());
     let trs: Vec<Tr> = match cfg.extra.get("transport").and_then(|t| Tr::parse(t)) {
@@ -1017,14 +1021,19 @@ pub fn run_c07(cfg: &Cfg) -> i32 {
                     "before-hello" | "inside-hello" | "hello-without-delimiter" | "after-hello-idle" => vec![0],
                     "pending-close-session" if thorough => vec![0, 1],
                     "pending-close-session" => vec![0],
-                    _ if thorough => vec![1, 3],
+                    _ if thorough => vec![1, 3, 8],
                     _ => vec![1],
                 };
                 for o in outs {
-                    let fractions: Vec<u64> = if point == "inside-reply" && thorough { vec![1, 2, 3] } else { vec![2] };
+                    let fractions: Vec<u64> = if (point == "inside-reply" || point == "inside-hello") && thorough { vec![1, 2, 3] } else { vec![2] };
                     for f in fractions {
-                        id += 1;
-                        cases.push(json!({"kind": "close", "id": id, "tr": tr.name(), "point": point, "manner": manner, "outstanding": o, "fraction": f}));
+                        // linger before the close: thorough = each of 0 / 20 / 150 ms, quick = one of
+                        // them, chosen by the seed
+                        let delays: Vec<u64> = if thorough { vec![0, 20, 150] } else { vec![[0, 20, 20, 150][((cfg.seed as usize) + id as usize) % 4]] };
+                        for d in delays {
+                            id += 1;
+                            cases.push(json!({"kind": "close", "id": id, "tr": tr.name(), "point": point, "manner": manner, "outstanding": o, "fraction": f, "delay_ms": d}));
+                        }
                     }
                 }
             }
@@ -1064,9 +1073,10 @@ pub fn run_c07(cfg: &Cfg) -> i32 {
     for cr in &results {
         let c = &cr.case;
         let r = &cr.result;
-        let key = format!("{}|{}|{}|{}|{}", c["tr"], c["point"], c["manner"], c["outstanding"], c["fraction"]);
+        let key = format!("{}|{}|{}|{}|{}|{}", c["tr"], c["point"], c["manner"], c["outstanding"], c["fraction"], c["delay_ms"]);
         rep.case(Some(key.as_bytes()));
         rep.count(&format!("cases:{}", c["tr"].as_str().unwrap_or("?")));
+        rep.count(&format!("linger_before_close_ms:{}", c["delay_ms"]));
         rep.count_n("zero_length_reads_observed", r["zero_length_reads"].as_u64().unwrap_or(0));
         match r["verdict"].as_str().unwrap_or("") {
             "held" => rep.count("held"),
@@ -1109,6 +1119,15 @@ pub fn run_c12b(cfg: &Cfg) -> i32 {
         for versions in [vec!["1.0"], vec!["1.1"], vec!["1.0", "1.1"], vec![]] {
             id += 1;
             cases.push(json!({"kind": "framing", "id": id, "tr": tr.name(), "server_versions": versions}));
+            if versions == vec!["1.0"] {
+                // hellos whose delimiter lies across the 32 KiB / 64 KiB marks (SSH channel packet
+                // size, pipe and TLS record sizes), every position of the delimiter
+                let lens: Vec<u64> = if cfg.thorough() { (32_766..=32_776).chain(16_384..=16_391).chain(65_534..=65_543).collect() } else { vec![32_769, 32_771, 32_773, 32_774, 65_539] };
+                for l in lens {
+                    id += 1;
+                    cases.push(json!({"kind": "framing", "id": id, "tr": tr.name(), "server_versions": ["1.0"], "hello_len": l, "manner": format!("hello-of-{l}-bytes")}));
+                }
+            }
         }
     }
     // "well-formed hello": a hello whose end-of-message delimiter never comes (the stream ends
